@@ -106,28 +106,34 @@ static void rnode_free(struct rnode *rnode)
 static int uc_len(char *s)
 {
 	int c = (unsigned char) s[0];
+	int n = 1;
+	int i;
 	if (~c & 0xc0)		/* ASCII or invalid */
 		return c > 0;
 	if (~c & 0x20)
-		return 2;
-	if (~c & 0x10)
-		return 3;
-	if (~c & 0x08)
-		return 4;
-	return 1;
+		n = 2;
+	else if (~c & 0x10)
+		n = 3;
+	else if (~c & 0x08)
+		n = 4;
+	for (i = 1; i < n; i++)	/* a sequence cut short by the end of the string */
+		if (!s[i])
+			return i;
+	return n;
 }
 
 static int uc_dec(char *s)
 {
 	int c = (unsigned char) s[0];
+	int n = uc_len(s);
 	if (~c & 0xc0)		/* ASCII or invalid */
 		return c;
 	if (~c & 0x20)
-		return ((c & 0x1f) << 6) | (s[1] & 0x3f);
+		return n < 2 ? c : ((c & 0x1f) << 6) | (s[1] & 0x3f);
 	if (~c & 0x10)
-		return ((c & 0x0f) << 12) | ((s[1] & 0x3f) << 6) | (s[2] & 0x3f);
+		return n < 3 ? c : ((c & 0x0f) << 12) | ((s[1] & 0x3f) << 6) | (s[2] & 0x3f);
 	if (~c & 0x08)
-		return ((c & 0x07) << 18) | ((s[1] & 0x3f) << 12) | ((s[2] & 0x3f) << 6) | (s[3] & 0x3f);
+		return n < 4 ? c : ((c & 0x07) << 18) | ((s[1] & 0x3f) << 12) | ((s[2] & 0x3f) << 6) | (s[3] & 0x3f);
 	return c;
 }
 
